@@ -17,6 +17,7 @@ package backend
 import (
 	"encoding/binary"
 	"fmt"
+	"strings"
 	"time"
 
 	"k8s.io/klog/v2"
@@ -45,10 +46,16 @@ const (
 func (c *Config) getScannerConfig() scanner.Config {
 	// todo: expose TTL as args
 	return scanner.Config{
-		CompactKey: getCompactKey(c.Prefix),
-		Tombstone:  tombStoneBytes,
-		TTL:        time.Second * time.Duration(eventsTTL),
+		CompactKey:   getCompactKey(c.Prefix),
+		Tombstone:    tombStoneBytes,
+		TTL:          time.Second * time.Duration(eventsTTL),
+		EventsPrefix: getEventsPrefix(c.Prefix),
 	}
+}
+
+// getEventsPrefix returns the directory of kubernetes events, which are the only keys written with ttl
+func getEventsPrefix(prefix string) []byte {
+	return append([]byte(strings.TrimSuffix(prefix, "/")), events...)
 }
 
 func (c *Config) complete() {
